@@ -1,1 +1,535 @@
 // Suites that need access to items private to this module (feature ipa-verif, test builds only).
+
+// ------------------------------------------------------------------------------------------
+// C16 — Batcher (agent a4). Everything is inside `c16_batcher`; items elsewhere in this file
+// belong to other properties.
+//
+// Request:  c16.batcher <rpb> <total|-|inf> <failing batches|-> <op>…
+//   g<r> get_batch(r).batch.push(r)   v<r> validate_record(r) (future kept, not polled)
+//   p<i> poll future i once           r<b> let the validation closure of batch b complete
+//   d<i> drop future i                t<n>|ti|tu set_total_records   s into_single_batch
+//   e is_empty                        x dump private state (hook accessor in batcher.rs)
+// Response: one token per op, then `| inv=<closure invocation log>`.
+pub mod c16_batcher {
+    use std::{
+        cell::RefCell,
+        future::Future,
+        pin::Pin,
+        rc::Rc,
+        task::{Context, Poll},
+    };
+
+    use super::super::batcher::Batcher;
+    use crate::{
+        error::Error,
+        helpers::TotalRecords,
+        ipa_verif::proto::*,
+        protocol::RecordId,
+    };
+
+    type Payload = (usize, Vec<usize>);
+    type BoxFut = Pin<Box<dyn Future<Output = Result<(), Error>>>>;
+
+    fn digits_after<'a>(s: &'a str, pat: &str) -> &'a str {
+        match s.find(pat) {
+            Some(i) => {
+                let rest = &s[i + pat.len()..];
+                let end = rest.find(|c: char| !c.is_ascii_digit()).unwrap_or(rest.len());
+                &rest[..end]
+            }
+            None => "?",
+        }
+    }
+
+    /// canonical tag of a panic message (`panic:<first line>` as produced by `guarded`)
+    fn tag(msg: &str) -> String {
+        if msg.contains("already been validated") {
+            format!("panic:validated:{}", digits_after(msg, "access batch "))
+        } else if msg.contains("validate_record called twice") {
+            format!("panic:twice:{}", digits_after(msg, "for record "))
+        } else if msg.contains("exceeds batch size") {
+            format!(
+                "panic:exceeds:{}:{}",
+                digits_after(msg, "record offset "),
+                digits_after(msg, "batch size ")
+            )
+        } else if msg.contains("Expected batch of") {
+            format!("panic:expected:{}", digits_after(msg, "Expected batch of "))
+        } else if msg.contains("divide by zero") {
+            "panic:divzero".into()
+        } else if msg.contains("needs a specific value") {
+            "panic:needs-specific".into()
+        } else if msg.contains("bad transition") {
+            "panic:bad-transition".into()
+        } else if msg.contains("self.first_batch == 0") {
+            "panic:first-batch".into()
+        } else if msg.contains("self.batches.len() <= 1") {
+            "panic:multi".into()
+        } else if msg.contains("sender should not be dropped") {
+            "panic:sender-dropped".into()
+        } else {
+            format!("panic:other:{}", msg.replace(' ', "_"))
+        }
+    }
+
+    fn plus(xs: &[usize]) -> String {
+        if xs.is_empty() {
+            "-".into()
+        } else {
+            xs.iter().map(|x| x.to_string()).collect::<Vec<_>>().join("+")
+        }
+    }
+
+    fn err_tag(e: &Error) -> String {
+        match e {
+            Error::MissingTotalRecords(_) => "err:MissingTotal".into(),
+            Error::RecordIdOutOfRange { .. } => "err:OutOfRange".into(),
+            Error::ParallelDZKPValidationFailed => "err:Parallel".into(),
+            Error::DZKPValidationFailed => "err:DZKP".into(),
+            other => format!("err:other:{}", canon(&format!("{other:?}")).replace(' ', "_")),
+        }
+    }
+
+    pub fn exec(req: &str) -> String {
+        let t: Vec<&str> = req.split(' ').collect();
+        assert_eq!(t[0], "c16.batcher");
+        let rpb: usize = t[1].parse().unwrap();
+        let total = match t[2] {
+            "-" => TotalRecords::Unspecified,
+            "inf" => TotalRecords::Indeterminate,
+            n => TotalRecords::specified(n.parse().unwrap()).unwrap(),
+        };
+        let failing: Rc<Vec<usize>> = Rc::new(parse_nat_list(t[3]));
+        let released: Rc<RefCell<Vec<usize>>> = Rc::new(RefCell::new(vec![]));
+        let log: Rc<RefCell<Vec<(usize, usize, Vec<usize>)>>> = Rc::new(RefCell::new(vec![]));
+        let mut batcher: Option<Batcher<'static, Payload>> = Some(
+            Batcher::new(rpb, total, Box::new(|i| (i, Vec::new())))
+                .into_inner()
+                .unwrap(),
+        );
+        let mut futs: Vec<Option<BoxFut>> = vec![];
+        let mut out: Vec<String> = vec![];
+        for op in &t[4..] {
+            let (c, arg) = op.split_at(1);
+            let num = || arg.parse::<usize>().unwrap();
+            let resp = match c {
+                "g" => match batcher.as_mut() {
+                    None => "gone".into(),
+                    Some(b) => {
+                        let r = num();
+                        match guarded(|| {
+                            let st = b.get_batch(RecordId::from(r));
+                            st.batch.1.push(r);
+                            format!("g:{}:{}", st.batch.0, plus(&st.batch.1))
+                        }) {
+                            Ok(s) => s,
+                            Err(p) => tag(&p),
+                        }
+                    }
+                },
+                "v" => match batcher.as_mut() {
+                    None => "gone".into(),
+                    Some(b) => {
+                        let r = num();
+                        let (failing, released, log) = (failing.clone(), released.clone(), log.clone());
+                        match guarded(|| {
+                            let fut = b.validate_record(RecordId::from(r), move |idx, payload: Payload| {
+                                log.borrow_mut().push((idx, payload.0, payload.1));
+                                std::future::poll_fn(move |_cx| {
+                                    if released.borrow().contains(&idx) {
+                                        Poll::Ready(if failing.contains(&idx) {
+                                            Err(Error::DZKPValidationFailed)
+                                        } else {
+                                            Ok(())
+                                        })
+                                    } else {
+                                        Poll::Pending
+                                    }
+                                })
+                            });
+                            Box::pin(fut) as BoxFut
+                        }) {
+                            Ok(f) => {
+                                futs.push(Some(f));
+                                format!("f{}", futs.len() - 1)
+                            }
+                            Err(p) => tag(&p),
+                        }
+                    }
+                },
+                "p" => {
+                    let i = num();
+                    match futs.get_mut(i).and_then(|f| f.as_mut()) {
+                        None => "gone".into(),
+                        Some(f) => {
+                            let mut cx = Context::from_waker(futures::task::noop_waker_ref());
+                            match guarded(|| f.as_mut().poll(&mut cx)) {
+                                Ok(Poll::Pending) => "pend".into(),
+                                Ok(Poll::Ready(r)) => {
+                                    futs[i] = None;
+                                    match r {
+                                        Ok(()) => "ok".into(),
+                                        Err(e) => err_tag(&e),
+                                    }
+                                }
+                                Err(p) => {
+                                    // never poll (or run the destructor glue of) a panicked future again
+                                    std::mem::forget(futs[i].take());
+                                    tag(&p)
+                                }
+                            }
+                        }
+                    }
+                }
+                "r" => {
+                    released.borrow_mut().push(num());
+                    "r".into()
+                }
+                "d" => {
+                    let i = num();
+                    if let Some(f) = futs.get_mut(i) {
+                        *f = None;
+                    }
+                    "d".into()
+                }
+                "t" => match batcher.as_mut() {
+                    None => "gone".into(),
+                    Some(b) => {
+                        let tr = match arg {
+                            "i" => TotalRecords::Indeterminate,
+                            "u" => TotalRecords::Unspecified,
+                            n => TotalRecords::specified(n.parse().unwrap()).unwrap(),
+                        };
+                        match guarded(|| b.set_total_records(tr)) {
+                            Ok(()) => "t".into(),
+                            Err(p) => tag(&p),
+                        }
+                    }
+                },
+                "s" => match batcher.take() {
+                    None => "gone".into(),
+                    Some(b) => match guarded(move || b.into_single_batch()) {
+                        Ok((ctor, pl)) => format!("s:{}:{}", ctor, plus(&pl)),
+                        Err(p) => tag(&p),
+                    },
+                },
+                "e" => match batcher.as_ref() {
+                    None => "gone".into(),
+                    Some(b) => if b.is_empty() { "e1".into() } else { "e0".into() },
+                },
+                "x" => match batcher.as_ref() {
+                    None => "gone".into(),
+                    Some(b) => b.ipa_verif_state(|p: &Payload| p.0.to_string()),
+                },
+                _ => panic!("harness: unknown op {op}"),
+            };
+            out.push(resp);
+        }
+        let inv = log
+            .borrow()
+            .iter()
+            .map(|(b, c, p)| format!("{b}:{c}:{}", plus(p)))
+            .collect::<Vec<_>>();
+        out.push("|".into());
+        out.push(format!("inv={}", if inv.is_empty() { "-".to_string() } else { inv.join(";") }));
+        out.join(" ")
+    }
+
+    fn permutations(n: usize) -> Vec<Vec<usize>> {
+        fn go(k: usize, cur: &mut Vec<usize>, out: &mut Vec<Vec<usize>>) {
+            if k == cur.len() {
+                out.push(cur.clone());
+                return;
+            }
+            for i in k..cur.len() {
+                cur.swap(k, i);
+                go(k + 1, cur, out);
+                cur.swap(k, i);
+            }
+        }
+        let mut out = vec![];
+        go(0, &mut (0..n).collect(), &mut out);
+        out
+    }
+
+    fn subset_str(mask: usize, nb: usize) -> String {
+        let v: Vec<usize> = (0..nb).filter(|b| mask >> b & 1 == 1).collect();
+        nat_list(&v)
+    }
+
+    /// One legitimate run: records arrive in `order`; `mode` chooses how futures are polled.
+    fn legit_script(rng: &mut Rng, rpb: usize, total: usize, order: &[usize], fail: &str, mode: usize) -> String {
+        let nb = total.div_ceil(rpb);
+        let mut ops: Vec<String> = vec![];
+        match mode {
+            // closures complete at once; every future is polled as soon as it exists
+            0 => {
+                for b in 0..nb {
+                    ops.push(format!("r{b}"));
+                }
+                for (i, r) in order.iter().enumerate() {
+                    ops.push(format!("g{r}"));
+                    ops.push(format!("v{r}"));
+                    ops.push(format!("p{i}"));
+                }
+                for i in 0..order.len() {
+                    ops.push(format!("p{i}"));
+                }
+            }
+            // immediate polling, closures released later in random batch order, then re-poll
+            1 => {
+                for (i, r) in order.iter().enumerate() {
+                    ops.push(format!("g{r}"));
+                    ops.push(format!("v{r}"));
+                    ops.push(format!("p{i}"));
+                }
+                let mut bs: Vec<usize> = (0..nb).collect();
+                rng.shuffle(&mut bs);
+                for b in bs {
+                    ops.push(format!("r{b}"));
+                    let mut is: Vec<usize> = (0..order.len()).collect();
+                    rng.shuffle(&mut is);
+                    for i in is {
+                        ops.push(format!("p{i}"));
+                    }
+                }
+            }
+            // nothing is polled until every record has asked; then random polling with releases in between
+            _ => {
+                for r in order {
+                    ops.push(format!("g{r}"));
+                }
+                for r in order {
+                    ops.push(format!("v{r}"));
+                }
+                let mut bs: Vec<usize> = (0..nb).collect();
+                rng.shuffle(&mut bs);
+                for round in 0..=nb {
+                    let mut is: Vec<usize> = (0..order.len()).collect();
+                    rng.shuffle(&mut is);
+                    for i in is {
+                        ops.push(format!("p{i}"));
+                    }
+                    if round < nb {
+                        ops.push(format!("r{}", bs[round]));
+                    }
+                }
+                for i in 0..order.len() {
+                    ops.push(format!("p{i}"));
+                }
+                for i in 0..order.len() {
+                    ops.push(format!("p{i}"));
+                }
+            }
+        }
+        ops.push("e".into());
+        ops.push("x".into());
+        format!("c16.batcher {rpb} {total} {fail} {}", ops.join(" "))
+    }
+
+    pub fn generate(rng: &mut Rng, thorough: bool) -> Vec<String> {
+        let mut out: Vec<String> = vec![];
+        let tps = super::super::dzkp_validator::TARGET_PROOF_SIZE;
+        // ---- boundary / misuse scripts first
+        for s in [
+            // never used / single batch
+            "c16.batcher 2 4 - e x s",
+            "c16.batcher 2 4 - g0 g1 e x s",
+            "c16.batcher 2 4 - g0 g2 x s",
+            "c16.batcher 2 4 - g0 v0 v1 p1 x s",
+            "c16.batcher 2 4 - g0 v0 p0 s p0",
+            "c16.batcher 18446744073709551615 3 - g0 g1 g2 x s",
+            "c16.batcher 18446744073709551615 3 - r0 g0 g1 g2 v0 v1 v2 p2 p0 p1 e x",
+            // no total / late total / bad transitions
+            "c16.batcher 2 - - g0 v0 p0 t4 v0 v1 p1 r0 p1 p2 x",
+            "c16.batcher 2 - - tu v0 p0 x",
+            "c16.batcher 2 inf - v0 p0 t4 ti tu x",
+            "c16.batcher 2 4 - t4 v0 ti v1 p1 p0 tu t5 x",
+            "c16.batcher 2 4 - tu x",
+            // twice
+            "c16.batcher 2 4 - v0 v0 v1 v1 p1 x",
+            "c16.batcher 3 7 - v6 v6 p0 x",
+            // beyond the total: same batch, next batch start, far away, exact multiple
+            "c16.batcher 2 3 - v3 v2 p0 v3 v4 p1 v5 p2 v100 p3 x",
+            "c16.batcher 2 4 - v4 v5 v6 p0 v7 x",
+            "c16.batcher 3 4 - v5 v4 x v3 p0 x",
+            "c16.batcher 4 1 - v1 v2 v3 x v0 p0 r0 p0 x v4 p1 v0",
+            // touching a batch already validated (front and out of order)
+            "c16.batcher 1 3 - r0 r1 r2 v1 p0 x g1 v1 g0 v0 p1 x g0 v0 g1 v1 v2 p2 x g2 v2 e",
+            "c16.batcher 2 6 - v4 v5 x v4 g4 g5 v0 v1 x v1 g0 v5 g2 x",
+            "c16.batcher 2 6 - v2 v3 v4 v5 x v0 v1 x e",
+            // zero records per batch
+            "c16.batcher 0 4 - g0 v0 x e s",
+            // the checking future is dropped / never polled
+            "c16.batcher 2 2 - v0 v1 p0 d1 p0 p0 x",
+            "c16.batcher 2 2 - v0 v1 p1 d1 p0 x",
+            "c16.batcher 2 2 - r0 v0 v1 d0 p1 p0 x",
+            "c16.batcher 2 4 - v0 s p0",
+            "c16.batcher 2 4 - v0 v2 s p0 p1",
+            // verdicts
+            "c16.batcher 2 4 0 r0 r1 v0 v1 v2 v3 p0 p1 p0 p2 p3 p2 x",
+            "c16.batcher 2 4 1 r0 r1 v3 v2 v1 v0 p0 p1 p2 p3 p0 p2 x",
+            "c16.batcher 2 5 2 r0 r1 r2 v4 p0 v0 v1 p2 p1 x",
+        ] {
+            out.push(s.to_string());
+        }
+        // bitmap growth beyond TARGET_PROOF_SIZE (records_per_batch > TARGET_PROOF_SIZE)
+        for (rpb, total) in [(tps + 1, tps + 1), (tps + 3, tps + 2), (tps + 3, 2 * tps + 7), (2 * tps, tps + 1)] {
+            let a = tps - 1;
+            out.push(format!(
+                "c16.batcher {rpb} {total} - v{a} v{} x v{} v0 x v{} v{a} v{} x v{} x",
+                tps, tps + 1, tps, total - 1, total
+            ));
+        }
+        {
+            // a whole batch of TARGET_PROOF_SIZE + 1 records, in reverse order
+            let n = tps + 1;
+            let mut ops = vec!["r0".to_string()];
+            for r in (0..n).rev() {
+                ops.push(format!("v{r}"));
+            }
+            ops.push(format!("p{}", n - 1));
+            ops.push("p0".into());
+            ops.push(format!("p{}", n - 2));
+            ops.push("e".into());
+            ops.push("x".into());
+            out.push(format!("c16.batcher {n} {n} - {}", ops.join(" ")));
+        }
+        // ---- exhaustive: every arrival permutation of n records
+        let nmax = if thorough { 7 } else { 6 };
+        for n in 1..=nmax {
+            let perms = permutations(n);
+            for rpb in 1..=4usize {
+                let nb = n.div_ceil(rpb);
+                for (pi, order) in perms.iter().enumerate() {
+                    if n <= 4 {
+                        // full cross product: failing subsets x polling modes
+                        for mask in 0..(1usize << nb) {
+                            for mode in 0..3 {
+                                out.push(legit_script(rng, rpb, n, order, &subset_str(mask, nb), mode));
+                            }
+                        }
+                    } else {
+                        let mask = if pi % 3 == 0 { 0 } else { rng.usize_below(1 << nb) };
+                        out.push(legit_script(rng, rpb, n, order, &subset_str(mask, nb), pi % 3));
+                        if thorough {
+                            let mask2 = rng.usize_below(1 << nb);
+                            out.push(legit_script(rng, rpb, n, order, &subset_str(mask2, nb), (pi + 1) % 3));
+                        }
+                    }
+                }
+            }
+        }
+        // ---- every single misuse inserted at every position of a legitimate run (n <= 5)
+        for n in 1..=5usize {
+            for rpb in 1..=3usize {
+                let perms = permutations(n);
+                for order in perms.iter().step_by(if thorough { 1 } else { 5 }) {
+                    for pos in 0..=n {
+                        let bad: Vec<String> = vec![
+                            format!("v{}", order[rng.usize_below(n)]), // twice or validated batch
+                            format!("v{n}"),                             // first record beyond the total
+                            format!("v{}", n + rng.usize_below(2 * rpb + 1)),
+                            format!("g{}", order[rng.usize_below(n)]),
+                        ];
+                        for b in bad {
+                            let mut ops: Vec<String> = (0..n.div_ceil(rpb)).map(|b| format!("r{b}")).collect();
+                            let mut nf = 0;
+                            for (i, r) in order.iter().enumerate() {
+                                if i == pos {
+                                    ops.push(b.clone());
+                                    if b.starts_with('v') {
+                                        ops.push(format!("p{nf}"));
+                                        nf += 1; // may be `gone` if the call panicked: the model agrees on that
+                                    }
+                                }
+                                ops.push(format!("v{r}"));
+                                ops.push(format!("p{nf}"));
+                                nf += 1;
+                            }
+                            if pos == n {
+                                ops.push(b.clone());
+                                if b.starts_with('v') {
+                                    ops.push(format!("p{nf}"));
+                                }
+                            }
+                            for i in 0..=n {
+                                ops.push(format!("p{i}"));
+                            }
+                            ops.push("x".into());
+                            out.push(format!("c16.batcher {rpb} {n} - {}", ops.join(" ")));
+                        }
+                    }
+                }
+            }
+        }
+        // ---- random long scripts (records up to 40, incomplete totals, all ops mixed)
+        for _ in 0..(if thorough { 6000 } else { 600 }) {
+            let rpb = 1 + rng.usize_below(8);
+            let total = 1 + rng.usize_below(40);
+            let nb = total.div_ceil(rpb);
+            let fail: Vec<usize> = (0..nb).filter(|_| rng.below(4) == 0).collect();
+            let late_total = rng.below(8) == 0;
+            let mut order: Vec<usize> = (0..total).collect();
+            rng.shuffle(&mut order);
+            // keep only a prefix sometimes (incomplete batches must stay pending)
+            if rng.below(3) == 0 {
+                order.truncate(rng.usize_below(total + 1));
+            }
+            let mut ops: Vec<String> = vec![];
+            let mut nf = 0usize;
+            let steps = order.len();
+            for (i, r) in order.iter().enumerate() {
+                if late_total && i == steps / 2 {
+                    ops.push(format!("t{total}"));
+                }
+                if rng.below(2) == 0 {
+                    ops.push(format!("g{r}"));
+                }
+                ops.push(format!("v{r}"));
+                nf += 1;
+                match rng.below(10) {
+                    0 => ops.push(format!("v{}", rng.usize_below(total + rpb + 2))),
+                    1 => ops.push(format!("g{}", rng.usize_below(total + rpb))),
+                    2 => ops.push(format!("r{}", rng.usize_below(nb))),
+                    3 | 4 | 5 => ops.push(format!("p{}", rng.usize_below(nf + 1))),
+                    6 => ops.push("x".into()),
+                    _ => {}
+                }
+                if ops.last().map_or(false, |o| o.starts_with('v')) && rng.below(10) == 0 {
+                    // account for a possible extra future
+                }
+            }
+            let mut bs: Vec<usize> = (0..nb).collect();
+            rng.shuffle(&mut bs);
+            for b in bs {
+                if rng.below(6) != 0 {
+                    ops.push(format!("r{b}"));
+                }
+                for _ in 0..3 {
+                    ops.push(format!("p{}", rng.usize_below(nf + 2)));
+                }
+            }
+            for i in 0..nf + 2 {
+                ops.push(format!("p{i}"));
+            }
+            for i in 0..nf + 2 {
+                ops.push(format!("p{i}"));
+            }
+            ops.push("e".into());
+            ops.push("x".into());
+            out.push(format!(
+                "c16.batcher {rpb} {} {} {}",
+                if late_total { "-".to_string() } else { total.to_string() },
+                nat_list(&fail),
+                ops.join(" ")
+            ));
+        }
+        out
+    }
+
+    #[test]
+    fn verif_c16_batcher() {
+        run_suite("c16_batcher", generate, exec);
+    }
+}
